@@ -19,6 +19,9 @@ PLAN = [
     ("tbl_driver", "asan", ()),
     ("ts_driver", "asan", ()),
     ("wr_driver", "plain", ()),
+    ("thr_driver", "plain", ()),
+    ("thr_driver", "tsan", ()),
+    ("rd_driver", "asan", ()),
 ]
 
 
@@ -26,6 +29,7 @@ def main():
     for name, flavor, defs in PLAN:
         if (vlib.HARNESS / f"{name}.cpp").exists():
             vlib.build_driver(name, flavor, defs)
+    vlib.build_tools("plain")
     print("setup ok")
     return 0
 
